@@ -213,10 +213,11 @@ def Row.wfParse (r : Row) : Bool :=
     && !r.tags.isEmpty && !r.nss.isEmpty
     && r.tags.all (fun t => r.nss.all fun n => r.recog.accepts t n)
 
-/-- `r1`'s recogniser would take an element written by `r2` in a part where both are active -/
+/-- `r1`'s recogniser would take an element written by `r2` in a serialisation (public part, sensitive part or the
+unsplit form) parsed in its own mode, where both are active -/
 def clash (r1 r2 : Row) : Bool :=
   r2.tags.any (fun t => r2.nss.any fun n => r1.recog.accepts t n)
-  && [Mode.pub, Mode.sens].any fun md => r2.writeGuard.on md && r1.parseGuard.on md
+  && [Mode.pub, Mode.sens, Mode.all].any fun md => r2.writeGuard.on md && r1.parseGuard.on md
 
 /-- recognisers pairwise distinguishable on what the writers produce, names unique, parse chain = rows -/
 def Table.distinct (T : Table) : Bool :=
@@ -270,6 +271,22 @@ def Msg.Valid (T : Table) (m : Msg) : Prop :=
   ∀ r ∈ T.rows, (∀ e ∈ m r.name, r.owns T e) ∧ (r.live m = true ∨ m r.name = [])
 
 instance (T : Table) (m : Msg) : Decidable (Msg.Valid T m) := by unfold Msg.Valid; infer_instance
+
+/-- a parsed object seen as a message again (a received or stored message that is re-used): the unknown extensions
+are the value of the catch-all field -/
+def ofPSt (T : Table) (s : PSt) : Msg := fun f =>
+  if T.rows.any (fun r => r.catchAll && r.name == f) then s.unknown else s.msg f
+
+/-- history step "combined-mode cycle": `toXml(SceAll)` then `parse(…, SceAll)` into a fresh object (stored outbox,
+archive copy, forwarded message …) -/
+def cycleAll (T : Table) (m : Msg) : Msg := ofPSt T (parseMode T (writeMode T m .all) .all true Msg.empty)
+
+/-- history step "received, then split again": the object the receive path produces, used as a message -/
+def resplit (T : Table) (m : Msg) : Msg := ofPSt T (recover T m)
+
+/-- every suppressor named by an `else if` is a known, non-catch-all row -/
+def Table.suppressorsKnown (T : Table) : Bool :=
+  T.rows.all fun r => r.suppressedBy.all fun f => T.rows.any fun r' => r'.name == f && !r'.catchAll
 
 /-- the unknown extensions of a message: the value(s) of the catch-all row(s) -/
 def catchAllValue (T : Table) (m : Msg) : List Elem := T.rows.flatMap fun r => if r.catchAll then m r.name else []
